@@ -44,15 +44,15 @@ const userConnTimeoutS = 2
 const closeGrace = (3*userConnTimeoutS + 10) * time.Second
 
 type serverSet struct {
-	srv                          *h.Server
-	bind, https, mux, lo, hi, mp int
+	srv                                *h.Server
+	bind, https, mux, http, lo, hi, mp int
 }
 
 var servers []*serverSet // index = maxPoolCount-1 (1..5)
 
 func startServers() {
 	for mp := 1; mp <= 5; mp++ {
-		ps := pa.Block(3)
+		ps := pa.Block(4)
 		lo := 21100 + (mp-1)*150
 		hi := lo + 149
 		srv, err := h.StartServerText(prop, fmt.Sprintf(`
@@ -60,16 +60,17 @@ bindAddr = "127.0.0.1"
 bindPort = %d
 vhostHTTPSPort = %d
 tcpmuxHTTPConnectPort = %d
+vhostHTTPPort = %d
 auth.token = "%s"
 userConnTimeout = %d
 transport.maxPoolCount = %d
 allowPorts = [{start=%d,end=%d}]
-`, ps[0], ps[1], ps[2], token, userConnTimeoutS, mp, lo, hi))
+`, ps[0], ps[1], ps[2], ps[3], token, userConnTimeoutS, mp, lo, hi))
 		if err != nil {
 			fmt.Fprintln(os.Stderr, "server:", err)
 			os.Exit(h.ExitHarnessError)
 		}
-		servers = append(servers, &serverSet{srv: srv, bind: ps[0], https: ps[1], mux: ps[2], lo: lo, hi: hi, mp: mp})
+		servers = append(servers, &serverSet{srv: srv, bind: ps[0], https: ps[1], mux: ps[2], http: ps[3], lo: lo, hi: hi, mp: mp})
 	}
 }
 
@@ -92,7 +93,7 @@ func (s *serverSet) remotePort() int {
 
 func main() {
 	run = h.NewRun(prop, "exploration")
-	run.Rule = "scenarios from the case PRNG: A supply mode x pool size x users (exactly-once join), B pool bounds (pool_count 0..8 and hostile values x maxPoolCount 1..5, unsolicited floods), C session end with teardown / registration gates, D hand-off gate per accept path; distinct = distinct (scenario, parameters, hook trace signature)"
+	run.Rule = "scenarios from the case PRNG: A supply mode x pool size x users (exactly-once join), B pool bounds (pool_count 0..8 and hostile values x maxPoolCount 1..5, unsolicited floods), C session end with teardown / registration gates, D hand-off gate per accept path, F announcement (proxy name, user address) on each of 8 accept paths; distinct = distinct (scenario, parameters, hook trace signature)"
 	run.Assumptions = []string{
 		"users are identified by a 16-byte nonce they send first; work connections are numbered by the scripted client that opens them",
 		fmt.Sprintf("userConnTimeout is %d s; 'closed within the timeout' is decided by a %v bounded-progress watchdog (still open afterwards = left open)", userConnTimeoutS, closeGrace),
@@ -119,6 +120,7 @@ func main() {
 	})
 	nHand := run.N(32, 1200)
 	run.ParallelRange(1000000, nHand, 32, scenarioHandoff)
+	run.ParallelRange(3000000, run.N(32, 960), 16, scenarioAnnounce)
 	startPluginServer()
 	run.ParallelRange(2000000, run.N(12, 240), 12, scenarioPluginReject)
 	for _, s := range servers {
@@ -900,4 +902,156 @@ func scenarioPluginReject(c *h.Case) {
 		c.Violation("user-connection-left-open-after-plugin-refusal", "NewUserConn plugin answered %q for %d user connection(s): still open %v later (neither bridged nor closed)", verdict, len(ucs), closeGrace)
 	}
 	run.Distinct(fmt.Sprintf("plugin-reject|%s|%d|%d", verdict, n, c.Idx%8))
+}
+
+// ---------------------------------------------------------------------------------------------
+// F. every accept path announces the work connection with the proxy's name and the user's real address
+
+var announcePaths = []string{"tcp-direct", "tcp-group", "https-muxer", "tcpmux-muxer", "tcpmux-group", "http-vhost", "http-group", "stcp-visitor"}
+
+func scenarioAnnounce(c *h.Case) {
+	rng := c.Rng
+	ss := servers[rng.Intn(len(servers))]
+	path := announcePaths[c.Idx%len(announcePaths)]
+	pool := rng.Intn(3)
+	c.Data["path"], c.Data["pool"] = path, pool
+	domain := fmt.Sprintf("a%d.announce.test", c.Idx)
+	gname := fmt.Sprintf("a%d.grp", c.Idx)
+	pname := fmt.Sprintf("a%d.px", c.Idx)
+	starts := make(chan *msg.StartWorkConn, 64)
+	handler := func(p *h.Peer, wc *h.WorkConn) {
+		defer wc.Conn.Close()
+		starts <- wc.Start
+		_ = wc.Conn.SetDeadline(time.Now().Add(20 * time.Second))
+		buf := make([]byte, 4096)
+		n, _ := wc.Conn.Read(buf)
+		if n == 0 {
+			return
+		}
+		if path == "http-vhost" || path == "http-group" {
+			_, _ = wc.Conn.Write([]byte("HTTP/1.1 200 OK\r\nContent-Length: 2\r\nConnection: close\r\n\r\nok"))
+			return
+		}
+		_, _ = wc.Conn.Write(append([]byte("OK"), buf[:n]...))
+	}
+	p, err := h.DialPeer(h.PeerOpts{ServerPort: ss.bind, TCPMux: true, Token: token, PoolCount: pool, AutoWork: true, WorkHandler: handler})
+	if err != nil || !p.LoggedIn() {
+		run.Inconclusive("login failed")
+		return
+	}
+	defer p.Close()
+	var m *msg.NewProxy
+	rport, dstPort := 0, 0
+	switch path {
+	case "tcp-direct":
+		rport = ss.remotePort()
+		m = &msg.NewProxy{ProxyName: pname, ProxyType: "tcp", RemotePort: rport}
+		dstPort = rport
+	case "tcp-group":
+		rport = ss.remotePort()
+		m = &msg.NewProxy{ProxyName: pname, ProxyType: "tcp", RemotePort: rport, Group: gname, GroupKey: "k"}
+		dstPort = rport
+	case "https-muxer":
+		m = &msg.NewProxy{ProxyName: pname, ProxyType: "https", CustomDomains: []string{domain}}
+		dstPort = ss.https
+	case "tcpmux-muxer":
+		m = &msg.NewProxy{ProxyName: pname, ProxyType: "tcpmux", Multiplexer: "httpconnect", CustomDomains: []string{domain}}
+		dstPort = ss.mux
+	case "tcpmux-group":
+		m = &msg.NewProxy{ProxyName: pname, ProxyType: "tcpmux", Multiplexer: "httpconnect", CustomDomains: []string{domain}, Group: gname, GroupKey: "k"}
+		dstPort = ss.mux
+	case "http-vhost":
+		m = &msg.NewProxy{ProxyName: pname, ProxyType: "http", CustomDomains: []string{domain}}
+	case "http-group":
+		m = &msg.NewProxy{ProxyName: pname, ProxyType: "http", CustomDomains: []string{domain}, Group: gname, GroupKey: "k"}
+	default:
+		m = &msg.NewProxy{ProxyName: pname, ProxyType: "stcp", Sk: "sk", AllowUsers: []string{"*"}}
+		dstPort = ss.bind
+	}
+	resp, err := p.NewProxy(m, 10*time.Second)
+	if err != nil || resp.Error != "" {
+		run.Inconclusive("registration failed")
+		return
+	}
+	nUsers := 1 + rng.Intn(3)
+	for u := 0; u < nUsers; u++ {
+		var uc net.Conn
+		var local string
+		switch path {
+		case "tcp-direct", "tcp-group":
+			uc, err = net.DialTimeout("tcp", fmt.Sprintf("127.0.0.1:%d", rport), 5*time.Second)
+		case "https-muxer":
+			uc, err = net.DialTimeout("tcp", fmt.Sprintf("127.0.0.1:%d", ss.https), 5*time.Second)
+		case "tcpmux-muxer", "tcpmux-group":
+			uc, err = net.DialTimeout("tcp", fmt.Sprintf("127.0.0.1:%d", ss.mux), 5*time.Second)
+		case "http-vhost", "http-group":
+			uc, err = net.DialTimeout("tcp", fmt.Sprintf("127.0.0.1:%d", ss.http), 5*time.Second)
+		default:
+			now := time.Now().Unix()
+			var vr *msg.NewVisitorConnResp
+			uc, vr, err = p.OpenVisitorConn(&msg.NewVisitorConn{RunID: p.RunID, ProxyName: pname, SignKey: h.AuthKey("sk", now), Timestamp: now}, 10*time.Second)
+			if err == nil && vr.Error != "" {
+				uc.Close()
+				err = fmt.Errorf("visitor refused: %s", vr.Error)
+			}
+		}
+		if err != nil {
+			run.Inconclusive("user connection could not be opened (" + path + ")")
+			return
+		}
+		local = uc.LocalAddr().String()
+		switch path {
+		case "https-muxer":
+			raw := uc
+			go func() { // the ClientHello carries the SNI; the backend answers garbage, the handshake fails, irrelevant here
+				tc := tls.Client(raw, &tls.Config{ServerName: domain, InsecureSkipVerify: true})
+				_ = tc.Handshake()
+			}()
+		case "tcpmux-muxer", "tcpmux-group":
+			fmt.Fprintf(uc, "CONNECT %s:443 HTTP/1.1\r\nHost: %s:443\r\n\r\n", domain, domain)
+			go func(uc net.Conn) { time.Sleep(50 * time.Millisecond); _, _ = uc.Write([]byte("0123456789abcdef")) }(uc)
+		case "http-vhost", "http-group":
+			fmt.Fprintf(uc, "GET /a%d HTTP/1.1\r\nHost: %s\r\n\r\n", u, domain)
+		default:
+			_, _ = uc.Write([]byte("0123456789abcdef"))
+		}
+		var st *msg.StartWorkConn
+		deadline := time.After(closeGrace)
+	wait:
+		for {
+			select {
+			case s0 := <-starts:
+				if s0 != nil && s0.Error == "" {
+					st = s0
+					break wait
+				}
+			case <-deadline:
+				break wait
+			}
+		}
+		if st == nil {
+			uc.Close()
+			run.Inconclusive("no work connection was started for the user (" + path + ")")
+			return
+		}
+		run.Count("announcements_checked_"+path, 1)
+		if st.ProxyName != pname {
+			c.Violation("startworkconn-names-other-proxy", "%s: work connection announced for proxy %q, the user's proxy is %q", path, st.ProxyName, pname)
+		}
+		if got := net.JoinHostPort(st.SrcAddr, fmt.Sprint(st.SrcPort)); got != local {
+			c.Violation("startworkconn-wrong-user-address-"+path, "%s: StartWorkConn for proxy %s says the user is %q, the user's socket is %s", path, pname, got, local)
+		}
+		if dstPort != 0 && int(st.DstPort) != dstPort {
+			c.Violation("startworkconn-wrong-destination-"+path, "%s: StartWorkConn says destination port %d, the user connected to port %d", path, st.DstPort, dstPort)
+		}
+		// let the exchange finish so that the next user gets a fresh work connection
+		_ = uc.SetReadDeadline(time.Now().Add(300 * time.Millisecond))
+		var one [64]byte
+		_, _ = uc.Read(one[:])
+		uc.Close()
+	}
+	run.Distinct(fmt.Sprintf("announce|%s|%d|%d|%d", path, pool, nUsers, ss.mp))
+	if c.Idx < 3000008 {
+		run.Sample(map[string]any{"scenario": "announce", "path": path, "users": nUsers})
+	}
 }
